@@ -533,6 +533,20 @@ pub fn modules_full(ctx: &mut Ctx, g: &Guarded, bi: &BootInformation) {
             }
         }
     }
+    // a clone (and the Debug output, which clones) of an advanced module iterator continues where the original stands
+    let r = guard(|| {
+        let mut it = bi.module_tags();
+        let first = it.next().is_some();
+        let dbg_entries = format!("{:?}", it).matches("ModuleTag { type:").count();
+        (first, it.clone().count(), dbg_entries)
+    });
+    ctx.ln(
+        "modules_clone",
+        match r {
+            Ok((first, rest, dbg)) => format!("VAL first={} rest={} dbg={}", first, rest, dbg),
+            Err(()) => "PANIC".to_string(),
+        },
+    );
 }
 
 /// Prints the `get` line of a typed getter; the tag if there is one.
